@@ -78,6 +78,8 @@ type Ctx struct {
 	exhaustive  *bool
 	harnessErr  []string
 	stop        bool
+	survey      map[string]int
+	surveyEx    map[string]string
 }
 
 type foundViolation struct {
@@ -178,6 +180,18 @@ func (c *Ctx) Report(p *plan.Plan, vs []Violation) {
 	for _, v := range vs {
 		if what, ok := c.matchKnown(v.Sig); ok {
 			c.knownHit[what]++
+			continue
+		}
+		if os.Getenv("VERIF_SURVEY") != "" {
+			// survey mode (development aid): count signatures, do not stop or shrink
+			if c.survey == nil {
+				c.survey = map[string]int{}
+				c.surveyEx = map[string]string{}
+			}
+			c.survey[v.Sig]++
+			if _, ok := c.surveyEx[v.Sig]; !ok {
+				c.surveyEx[v.Sig] = trimTo(v.Msg, 400)
+			}
 			continue
 		}
 		dup := false
@@ -394,6 +408,16 @@ func (c *Ctx) finish() int {
 	sort.Strings(whats)
 	for _, w := range whats {
 		fmt.Printf("KNOWN-FINDING: property=%s %s (hit %d times)\n", c.Check.ID, w, c.knownHit[w])
+	}
+	if len(c.survey) > 0 {
+		var sigs []string
+		for s := range c.survey {
+			sigs = append(sigs, s)
+		}
+		sort.Strings(sigs)
+		for _, s := range sigs {
+			fmt.Printf("SURVEY %6d  %s\n          e.g. %s\n", c.survey[s], s, c.surveyEx[s])
+		}
 	}
 	var vioOut []map[string]any
 	for n, f := range c.violations {
